@@ -8,7 +8,7 @@ def run(chk):
     chk.rule = ("(X/D) DialBackoffState::new/update sequences for (step, max) pairs incl. huge durations vs Dialer.b_update; (D) whole networks over the fabric with the tick jitter "
                 "overridden to 0: 1-4 known peers with random affinity and address lists (own address, unreachable ports, another peer's address), peers going down and "
                 "coming back (same key, same address) between ticks, 8-40 ticks; per tick the (peer, address) pairs of the dial trace point are compared with Dialer.check driven "
-                "by the same availability timeline; when the outstanding-connection cap binds only count and eligibility are compared; distinct = scenario text; non-trivial = all")
+                "by the same availability timeline; when the outstanding-connection cap binds only count and eligibility are compared; a second family holds 2-4 identical always-down peers against a cap of 1-3 with explicit connects pending at chosen ticks (Dialer.check's `outstanding`) and a growing backoff: dials per tick compared; monitors for rotation, too-early and overdue attempts on every trace; distinct = scenario text; non-trivial = all")
     if not chk.prepare():
         return
     cases = []
